@@ -225,6 +225,13 @@ func (t *Token) validate() error {
 	requiredDID(t.issuer, "Issuer")
 	requiredDID(t.subject, "Subject")
 
+	// a Command can be put together without going through command.Parse
+	// (command.New, Join, a conversion): what no decoder reads back must
+	// not be accepted here
+	if _, err := command.Parse(t.command.String()); err != nil {
+		errs = errors.Join(errs, fmt.Errorf("invalid command %q: %w", t.command.String(), err))
+	}
+
 	if len(t.nonce) < 12 {
 		errs = errors.Join(errs, fmt.Errorf("token nonce too small"))
 	}
